@@ -287,7 +287,7 @@ func (h *HttpServer) handleStreamInit(w http.ResponseWriter, r *http.Request) {
 		// The producer's first turn folds into this /init request, so the init
 		// request's custom metadata is what the pipe transports would have
 		// delivered on the first tick batch.
-		finished, err := h.runProduceLoop(ctx, writer, &buf, outputSchema, state.(ProducerState), info, stats, auth, transportMeta, callCtx.Cookies, callCtx.stickySink, requestMetadata(req))
+		finished, err := h.runProduceLoopBounded(ctx, writer, &buf, outputSchema, state.(ProducerState), info, stats, auth, transportMeta, callCtx.Cookies, callCtx.stickySink, requestMetadata(req))
 		handlerErr = err
 		if err == nil && !finished {
 			// Batch limit reached — append continuation token
@@ -695,7 +695,7 @@ func (h *HttpServer) handleProducerContinuation(ctx context.Context, w http.Resp
 	// framework's own transport keys are stripped first — the pipe transports
 	// never put them on a tick, and the stream-state value is a sealed cursor
 	// token that must not surface to user code.
-	finished, err := h.runProduceLoop(ctx, writer, &buf, schema, state, info, stats, auth, transportMeta, cookies, sink, stripFrameworkTickMetadata(requestMeta))
+	finished, err := h.runProduceLoopBounded(ctx, writer, &buf, schema, state, info, stats, auth, transportMeta, cookies, sink, stripFrameworkTickMetadata(requestMeta))
 	if err == nil && !finished {
 		// Batch limit reached — append continuation token
 		token, tokenErr := h.packCursorTokenFor(info.Name, callID, state, auth)
@@ -1039,7 +1039,15 @@ func stripFrameworkTickMetadata(meta arrow.Metadata) arrow.Metadata {
 //
 // body is the buffer writer drains into; its length is what max_response_bytes
 // is measured against.
-func (h *HttpServer) runProduceLoop(ctx context.Context, writer *ipc.Writer, body *bytes.Buffer, schema *arrow.Schema,
+func (h *HttpServer) runProduceLoop(ctx context.Context, writer *ipc.Writer, schema *arrow.Schema,
+	state ProducerState, info *methodInfo, stats *CallStatistics, auth *AuthContext, transportMeta map[string]string, cookies map[string]string, sink *stickySink, firstTickMeta arrow.Metadata) (bool, error) {
+	return h.runProduceLoopBounded(ctx, writer, nil, schema, state, info, stats, auth, transportMeta, cookies, sink, firstTickMeta)
+}
+
+// runProduceLoopBounded is runProduceLoop with the response buffer in hand, so
+// the turn can end once the body has reached max_response_bytes. A nil body
+// means the caller has no buffer to measure (no wire cap is applied).
+func (h *HttpServer) runProduceLoopBounded(ctx context.Context, writer *ipc.Writer, body *bytes.Buffer, schema *arrow.Schema,
 	state ProducerState, info *methodInfo, stats *CallStatistics, auth *AuthContext, transportMeta map[string]string, cookies map[string]string, sink *stickySink, firstTickMeta arrow.Metadata) (bool, error) {
 
 	dataBatches := 0
@@ -1187,7 +1195,7 @@ func (h *HttpServer) runProduceLoop(ctx context.Context, writer *ipc.Writer, bod
 		// end this response with a continuation token instead of producing
 		// further, so the overshoot is at most the batch just written and the
 		// rest of the stream arrives on later turns.
-		if h.maxResponseBytes > 0 && dataBatches > 0 && int64(body.Len()) >= h.maxResponseBytes {
+		if body != nil && h.maxResponseBytes > 0 && dataBatches > 0 && int64(body.Len()) >= h.maxResponseBytes {
 			return false, nil
 		}
 	}
